@@ -89,7 +89,7 @@ def main():
     src = f"/tmp/seedout-{pid}/{mn}"
     wt = f"/tmp/seedwt-{pid}-{mn}"
     dst = os.path.join(VERIF, "seeded", f"{pid}-{mn}")
-    if not os.path.exists(f"{src}/patch.diff") and os.path.exists(f"{dst}/patch.diff"):
+    if os.path.exists(f"{dst}/patch.diff"):     # a stored change is re-evaluated from its stored files (never overwritten)
         src = dst      # re-evaluation of a change that is already stored
     os.makedirs(dst, exist_ok=True)
     meta = {"property": pid, "mutation": mn, "repo_head": sh("git -C /repo rev-parse --short HEAD")[1].strip()}
